@@ -42,7 +42,7 @@ theorem count_set {p : Conn → Bool} {l : List Conn} {i : Nat} {c c' : Conn} (h
 /-- task `i` changes state, the counter and the queue change with it: the accounts stay balanced if they are
     balanced locally -/
 theorem SemInv.update {s : St} {i : Nat} {c c' : Conn} {v' : Nat → Nat} {w' : Nat → List Nat}
-    (hi : SemInv s) (hc : s.conns[i]? = some c) (haddr : c'.addr = c.addr)
+    (hi : SemInv s) (hc : s.conns[i]? = some c) (haddr : c'.addr = c.addr ∨ c.addr = none)
     (hcnt : ∀ a, v' a + fl a c' = s.semv a + fl a c)
     (hwl : ∀ a j, j ∈ w' a → j ∈ s.waiters a ∨ (j = i ∧ c.addr = some a)) :
     SemInv { s with conns := s.conns.set i c', semv := v', waiters := w' } := by
@@ -66,9 +66,13 @@ theorem SemInv.update {s : St} {i : Nat} {c c' : Conn} {v' : Nat → Nat} {w' : 
       by_cases hij : i = j
       · subst hij
         rw [hc] at hd; cases hd
-        exact ⟨c', by simp [hlt], by rw [haddr]; exact hda⟩
+        rcases haddr with haddr | haddr
+        · exact ⟨c', by simp [hlt], by rw [haddr]; exact hda⟩
+        · rw [haddr] at hda; simp at hda
       · exact ⟨d, by simp [hij, hd], hda⟩
-    · exact ⟨c', by simp [hlt], by rw [haddr]; exact h⟩
+    · rcases haddr with haddr | haddr
+      · exact ⟨c', by simp [hlt], by rw [haddr]; exact h⟩
+      · rw [haddr] at h; simp at h
 
 /-- `_wake_up_next`: the slot moves from the counter to the woken waiter -/
 theorem SemInv.wake {s : St} (hi : SemInv s) (ad : Nat) : SemInv (wakeNext s ad) := by
@@ -84,7 +88,7 @@ theorem SemInv.wake {s : St} (hi : SemInv s) (ad : Nat) : SemInv (wakeNext s ad)
       rw [hd] at hd'; cases hd'
       simp only [hd]
       refine (SemInv.update (c' := { d with pc := .semWoken }) (v' := upd s.semv ad (s.semv ad - 1))
-        (w' := s.waiters) hi hd rfl ?_ (fun a j h => Or.inl h)).congr rfl rfl rfl rfl
+        (w' := s.waiters) hi hd (Or.inl rfl) ?_ (fun a j h => Or.inl h)).congr rfl rfl rfl rfl
       intro a
       by_cases ha : a = ad
       · subst ha
@@ -109,39 +113,60 @@ theorem semEffect_plain (s : St) (i : Nat) (c : Conn) (a : Act) (h : isSemAct c.
 
 theorem stepS_plain {c c' : Conn} {a : Act} {ok : Bool} {cmds : List Cmd}
     (h : stepS c a ok = some (c', cmds)) :
-    c'.addr = c.addr ∧ (isSemAct c.pc a = false →
+    (c'.addr = c.addr ∨ (c.addr = none ∧ isSemAct c.pc a = false ∧ holding c'.pc = false ∧ c'.pc ≠ PC.semWoken)) ∧
+    (isSemAct c.pc a = false →
       holding c'.pc = holding c.pc ∧ (c'.pc = PC.semWoken ↔ c.pc = PC.semWoken)) := by
   unfold stepS at h
   split at h <;> (try split at h) <;>
     simp only [Option.some.injEq, Prod.mk.injEq, reduceCtorEq] at h <;>
     (try (obtain ⟨rfl, rfl⟩ := h)) <;>
+    (try (cases hca : c.addr <;> simp_all [isSemAct, holding, Mode.held] <;> done)) <;>
     simp_all [isSemAct, holding, Mode.held]
 
-theorem fl_eq {a : Nat} {c c' : Conn} (h1 : c'.addr = c.addr) (h2 : holding c'.pc = holding c.pc)
+theorem fl_eq {a : Nat} {c c' : Conn}
+    (h1 : c'.addr = c.addr ∨ (holding c'.pc = false ∧ c'.pc ≠ PC.semWoken))
+    (h2 : holding c'.pc = holding c.pc)
     (h3 : c'.pc = PC.semWoken ↔ c.pc = PC.semWoken) : fl a c' = fl a c := by
   have h4 : (c'.pc == PC.semWoken) = (c.pc == PC.semWoken) := by
     rw [Bool.eq_iff_iff]; simp [h3]
-  simp [fl, holdsAt, wokenAt, h1, h2, h4]
+  rcases h1 with h1 | ⟨h5, h6⟩
+  · simp [fl, holdsAt, wokenAt, h1, h2, h4]
+  · have h7 : (c'.pc == PC.semWoken) = false := by simpa using h6
+    have h8 : (c.pc == PC.semWoken) = false := by rw [← h4]; exact h7
+    have h9 : holding c.pc = false := by rw [← h2]; exact h5
+    simp [fl, holdsAt, wokenAt, h5, h7, h8, h9]
 
 /-- an action of an open_connection task keeps the semaphore accounts balanced -/
 theorem SemInv.stepS {s : St} {i : Nat} {c c' : Conn} {a : Act} {cmds : List Cmd}
     (hi : SemInv s) (hc : s.conns[i]? = some c) (h : stepS c a (semGuard s c a) = some (c', cmds)) :
     SemInv (semEffect { s with conns := s.conns.set i c' } i c a) := by
-  obtain ⟨haddr, hplain⟩ := stepS_plain h
+  obtain ⟨haddr0, hplain⟩ := stepS_plain h
+  have hupd : c'.addr = c.addr ∨ c.addr = none := by
+    rcases haddr0 with h | h
+    · exact Or.inl h
+    · exact Or.inr h.1
+  have hfl : c'.addr = c.addr ∨ (holding c'.pc = false ∧ c'.pc ≠ PC.semWoken) := by
+    rcases haddr0 with h | h
+    · exact Or.inl h
+    · exact Or.inr ⟨h.2.2.1, h.2.2.2⟩
   cases hsem : isSemAct c.pc a with
   | false =>
     rw [semEffect_plain _ _ _ _ hsem]
     obtain ⟨h2, h3⟩ := hplain hsem
-    exact (SemInv.update (v' := s.semv) (w' := s.waiters) hi hc haddr
-      (fun a => by rw [fl_eq haddr h2 h3]) (fun a j h => Or.inl h)).congr rfl rfl rfl rfl
+    exact (SemInv.update (v' := s.semv) (w' := s.waiters) hi hc hupd
+      (fun a => by rw [fl_eq hfl h2 h3]) (fun a j h => Or.inl h)).congr rfl rfl rfl rfl
   | true =>
+    have haddr : c'.addr = c.addr := by
+      rcases haddr0 with h | h
+      · exact h
+      · rw [hsem] at h; simp at h
     cases had : c.addr with
     | none =>
       -- no address: the task never reaches the semaphore
       have : semEffect { s with conns := s.conns.set i c' } i c a = { s with conns := s.conns.set i c' } := by
         simp [semEffect, had]
       rw [this]
-      refine (SemInv.update (v' := s.semv) (w' := s.waiters) hi hc haddr ?_ (fun a j h => Or.inl h)).congr rfl rfl rfl rfl
+      refine (SemInv.update (v' := s.semv) (w' := s.waiters) hi hc (Or.inl haddr) ?_ (fun a j h => Or.inl h)).congr rfl rfl rfl rfl
       intro a'
       simp [fl, holdsAt, wokenAt, haddr, had]
     | some ad =>
@@ -152,7 +177,7 @@ theorem SemInv.stepS {s : St} {i : Nat} {c c' : Conn} {a : Act} {cmds : List Cmd
         obtain ⟨_, rfl, rfl⟩ := h
         simp only [semEffect, had, hpc]
         refine (SemInv.update (c' := { c with pc := .inSem, addr := some ad }) (v' := s.semv)
-          (w' := upd s.waiters ad (s.waiters ad ++ [i])) hi hc had.symm ?_ ?_).congr rfl rfl rfl rfl
+          (w' := upd s.waiters ad (s.waiters ad ++ [i])) hi hc (Or.inl had.symm) ?_ ?_).congr rfl rfl rfl rfl
         · intro a'; simp [fl, holdsAt, wokenAt, hpc, holding]
         · intro a' j hj
           by_cases ha : a' = ad
@@ -170,7 +195,7 @@ theorem SemInv.stepS {s : St} {i : Nat} {c c' : Conn} {a : Act} {cmds : List Cmd
           exact hg.1
         simp only [semEffect, had, hpc]
         refine (SemInv.update (c' := { c with pc := .inConn, addr := some ad }) (v' := upd s.semv ad (s.semv ad - 1))
-          (w' := s.waiters) hi hc had.symm ?_ (fun a j h => Or.inl h)).congr rfl rfl rfl rfl
+          (w' := s.waiters) hi hc (Or.inl had.symm) ?_ (fun a j h => Or.inl h)).congr rfl rfl rfl rfl
         intro a'
         by_cases ha : a' = ad
         · subst ha; simp [upd, fl, holdsAt, wokenAt, hpc, holding, had]; omega
@@ -181,7 +206,7 @@ theorem SemInv.stepS {s : St} {i : Nat} {c c' : Conn} {a : Act} {cmds : List Cmd
         obtain ⟨rfl, rfl⟩ := h
         simp only [semEffect, had, hpc]
         refine (SemInv.update (c' := { c with pc := .preSE .canc, addr := some ad }) (v' := s.semv)
-          (w' := upd s.waiters ad ((s.waiters ad).erase i)) hi hc had.symm ?_ ?_).congr rfl rfl rfl rfl
+          (w' := upd s.waiters ad ((s.waiters ad).erase i)) hi hc (Or.inl had.symm) ?_ ?_).congr rfl rfl rfl rfl
         · intro a'; simp [fl, holdsAt, wokenAt, hpc, holding, Mode.held]
         · intro a' j hj
           by_cases ha : a' = ad
@@ -192,7 +217,7 @@ theorem SemInv.stepS {s : St} {i : Nat} {c c' : Conn} {a : Act} {cmds : List Cmd
         obtain ⟨rfl, rfl⟩ := h
         simp only [semEffect, had, hpc]
         refine SemInv.wake ((SemInv.update (c' := { c with pc := .inConn, addr := some ad }) (v' := s.semv)
-          (w' := upd s.waiters ad ((s.waiters ad).erase i)) hi hc had.symm ?_ ?_).congr rfl rfl rfl rfl) ad
+          (w' := upd s.waiters ad ((s.waiters ad).erase i)) hi hc (Or.inl had.symm) ?_ ?_).congr rfl rfl rfl rfl) ad
         · intro a'; simp [fl, holdsAt, wokenAt, hpc, holding, had]
         · intro a' j hj
           by_cases ha : a' = ad
@@ -203,7 +228,7 @@ theorem SemInv.stepS {s : St} {i : Nat} {c c' : Conn} {a : Act} {cmds : List Cmd
         obtain ⟨rfl, rfl⟩ := h
         simp only [semEffect, had, hpc]
         refine SemInv.wake ((SemInv.update (c' := { c with pc := .preSE .canc, addr := some ad }) (v' := upd s.semv ad (s.semv ad + 1))
-          (w' := upd s.waiters ad ((s.waiters ad).erase i)) hi hc had.symm ?_ ?_).congr rfl rfl rfl rfl) ad
+          (w' := upd s.waiters ad ((s.waiters ad).erase i)) hi hc (Or.inl had.symm) ?_ ?_).congr rfl rfl rfl rfl) ad
         · intro a'
           by_cases ha : a' = ad
           · subst ha; simp [upd, fl, holdsAt, wokenAt, hpc, holding, had, Mode.held]
@@ -218,7 +243,7 @@ theorem SemInv.stepS {s : St} {i : Nat} {c c' : Conn} {a : Act} {cmds : List Cmd
         obtain ⟨rfl, rfl⟩ := h
         simp only [semEffect, had, hpc]
         refine SemInv.wake ((SemInv.update (c' := { c with pc := .finishing, addr := some ad }) (v' := upd s.semv ad (s.semv ad + 1))
-          (w' := s.waiters) hi hc had.symm ?_ (fun a j h => Or.inl h)).congr rfl rfl rfl rfl) ad
+          (w' := s.waiters) hi hc (Or.inl had.symm) ?_ (fun a j h => Or.inl h)).congr rfl rfl rfl rfl) ad
         intro a'
         by_cases ha : a' = ad
         · subst ha; simp [upd, fl, holdsAt, wokenAt, hpc, holding, had]
@@ -328,11 +353,11 @@ theorem SemInv.preserved {s s' : St} {l : Label} (hi : SemInv s) (h : step s l =
         · split at h
           · rename_i rest _
             simp only [Option.some.injEq] at h; subst h
-            exact (SemInv.update (c' := { c with cbs := rest, entry := false }) (v' := s.semv) (w' := s.waiters) hi hc rfl
+            exact (SemInv.update (c' := { c with cbs := rest, entry := false }) (v' := s.semv) (w' := s.waiters) hi hc (Or.inl rfl)
               (fun a => by simp [fl, holdsAt, wokenAt]) (fun a j h => Or.inl h)).congr rfl rfl rfl rfl
           · rename_i rest _
             simp only [Option.some.injEq] at h; subst h
-            exact (SemInv.update (c' := { c with cbs := rest }) (v' := s.semv) (w' := s.waiters) hi hc rfl
+            exact (SemInv.update (c' := { c with cbs := rest }) (v' := s.semv) (w' := s.waiters) hi hc (Or.inl rfl)
               (fun a => by simp [fl, holdsAt, wokenAt]) (fun a j h => Or.inl h)).congr rfl rfl rfl rfl
           · simp at h
         · simp at h
